@@ -21,7 +21,7 @@ RULE += " The instants given to broker.update (consecutive duplicates removed) m
 RULE += ' A portfolio construction that records no allocation row is a violation. 40% of the sessions mix UTC spellings between start and end.'
 ASSUMPTIONS = ['at least one close after burn-in (an empty equity curve is outside the quantifier)',
                'start time-of-day 00:00-14:30, end 23:59 as documented']
-ALPHAS = ('fixed', 'single', 'topn_mom', 'sma_trend', 'inv_vol', 'mom_sign')
+ALPHAS = ('fixed', 'single', 'topn_mom', 'sma_trend', 'inv_vol', 'mom_sign', 'switch')
 
 
 def plan(tier, seed):
